@@ -4,7 +4,7 @@ by sub-agents that saw only the property texts).  harmless.py import <agent-dir>
 
 import: for each <agent-dir>/<X>/patch.diff: applies in a scratch worktree of /repo, pinned test suite must give the
 baseline pass/fail sets; kept as /verif/harmless/<prefix>-<X>/ {patch.diff, notes.md, meta.json}.
-run: /repo must be clean; apply, run the quick command of every check whose anchored files the patch touches (plus
+run: in a scratch worktree of /repo (env VERIF_REPO; /repo itself is not touched): apply, run the quick command of every check whose anchored files the patch touches (plus
 C18, C19 which exercise everything), undo; any VIOLATION line is a false alarm to investigate. Writes harmless/RESULTS.json."""
 import json
 import os
@@ -69,32 +69,35 @@ def checks_for(files):
 
 
 def do_run(ids):
-    if sh("git -C /repo status --porcelain --untracked-files=no").stdout.strip():
-        print("refusing: /repo has uncommitted changes")
-        return 2
+    """Runs against a scratch worktree of /repo (VERIF_REPO), so /repo itself is never touched."""
+    wt = "/tmp/harmrun"
+    sh(f"git -C /repo worktree remove --force {wt}")
+    assert sh(f"git -C /repo worktree add --detach {wt}").returncode == 0
     man = json.load(open(os.path.join(VERIF, "MANIFEST.json")))
     cmds = {c["property_id"]: c["quick_cmd"] for c in man["checks"]}
     ids = ids or sorted(d for d in os.listdir(ROOT) if os.path.isfile(os.path.join(ROOT, d, "patch.diff")))
     resf = os.path.join(ROOT, "RESULTS.json")
     results = json.load(open(resf)) if os.path.exists(resf) else {}
-    for hid in ids:
-        d = os.path.join(ROOT, hid)
-        meta = json.load(open(os.path.join(d, "meta.json")))
-        if sh(f"git -C /repo apply {os.path.join(d, 'patch.diff')}").returncode != 0:
-            print(hid, "patch does not apply")
-            continue
-        try:
+    env = dict(os.environ, VERIF_REPO=wt)
+    try:
+        for hid in ids:
+            d = os.path.join(ROOT, hid)
+            meta = json.load(open(os.path.join(d, "meta.json")))
+            sh(f"git -C {wt} checkout -- . && git -C {wt} clean -fdq")
+            if sh(f"git -C {wt} apply {os.path.join(d, 'patch.diff')}").returncode != 0:
+                print(hid, "patch does not apply")
+                continue
             out = {}
             for p in checks_for(meta["files"]):
-                r = sh(cmds[p], cwd=VERIF, timeout=3600)
+                r = sh(cmds[p], cwd=VERIF, timeout=3600, env=env)
                 viol = [l for l in r.stdout.splitlines() if l.startswith("VIOLATION")]
                 detail = [l.strip() for l in r.stdout.splitlines() if l.startswith("  ")][:2]
                 out[p] = {"exit": r.returncode, "violations": len(viol), "detail": detail}
                 print(hid, p, "ALARM " + " | ".join(detail)[:300] if viol else "quiet", flush=True)
             results[hid] = {"checks": out, "alarms": [p for p, v in out.items() if v["violations"]]}
-        finally:
-            sh("git -C /repo checkout -- .")
-        json.dump(results, open(resf, "w"), indent=1, sort_keys=True)
+            json.dump(results, open(resf, "w"), indent=1, sort_keys=True)
+    finally:
+        sh(f"git -C /repo worktree remove --force {wt}")
     return 0
 
 
